@@ -100,16 +100,43 @@ def build_edges(mir, cube):
             v = m.eval(x, model_completion=True); return z3.is_true(v) if z3.is_bool(v) else v.as_long()
         return {'graph_kind': cube['gk'], 'skip_dynamic_deps': ev(skip_dyn), 'in_dynamic_branch': ev(in_dyn),
                 'dependencies': [{k: ev(v) for k, v in i.items()} for i in info], 'loads': [ev(sp) for g, sp, f in loads if ev(g)], 'deferred': [u for u in range(UU) if ev(branches.present[u])]}
+    # native replay: a real build of one root whose dependency records are dictated through a custom analyzer and resolver
+    def evm(m, x):
+        v = m.eval(x, model_completion=True); return z3.is_true(v) if z3.is_bool(v) else v.as_long()
+    class World:
+        def to_json(self, m):
+            return {'fill_deps': True, 'edges': True, 'graph_kind': cube['gk'], 'skip_dynamic_deps': evm(m, skip_dyn), 'in_dynamic_branch': evm(m, in_dyn),
+                    'deps': [{k: evm(m, v) for k, v in i.items()} for i in info]}
+    class OpEdges:
+        def op_json(self, m): return {'op': 'build'}
+        def decode(self, m):
+            req = sorted({u for u in range(UU) if evm(m, loaded(u)) or evm(m, branches.present[u])})
+            recs = {}
+            for d, i in enumerate(info):
+                if not evm(m, i['p']): continue
+                dep = out.vals[d]
+                recs[f'./e{d}'] = [evm(m, dep.f[st['Dependency'].index('maybe_code')].tag), evm(m, dep.f[st['Dependency'].index('maybe_type')].tag)]
+            return {'requested': req, 'records': recs}
+    # what a build can produce as a dependency record: something is resolved; dynamic imports are code imports; code-only graphs have
+    # no type resolutions; distinct dependencies point at distinct targets (otherwise another edge could load the same module)
+    realizable = []
+    for i in info:
+        realizable += [z3.Implies(i['p'], z3.Not(z3.And(i['ck'] == 0, i['tk'] == 0))), z3.Implies(i['dyn'], i['ck'] != 0)]
+        if not inc_types: realizable.append(i['tk'] == 0)
+        if not inc_code: realizable.append(z3.Implies(z3.And(i['p'], i['ck'] == 0), i['tk'] != 0))
+    world, ope = World(), OpEdges()
     qs = [Query('loader-is-asked-exactly-for-the-edges-the-graph-kind-and-options-select', Or(bad_load), describe=describe),
           Query('dynamic-edges-outside-a-dynamic-branch-are-deferred-not-dropped', Or(bad_defer), describe=describe),
           Query('resolutions-not-followed-for-the-graph-kind-are-cleared-others-untouched', Or(bad_clear), describe=describe),
           Query('load-keeps-the-dynamic-branch-flag', Or(z3.And(g, f != in_dyn) for g, sp, f in loads), describe=describe),
           Query('witness-load-and-defer', z3.And(Or(g for g, sp, f in loads), Or(branches.present)), expect='sat', kind='witness')]
+    for q in qs: q.world, q.ops, q.realizable = world, [ope], realizable
     for fname in sorted({f for f, _ in eng.exceeded}):
         qs.insert(0, Query('unwinding:' + fname.split('>::')[-1], Or(gd for f, gd in eng.exceeded if f == fname), kind='unwind'))
     qs.insert(0, Query('model-capacity', Or(gd for _, gd in eng.obligations), kind='obligation'))
     qs.insert(0, Query('no-panic', Or(gd for _, gd in eng.panics)))
-    return eng, None, list(sym.cons), qs
+    world.has_fc = True       # the replay needs the swc-enabled binary (default module analyzer for the non-root modules is bypassed, but BuildOptions::default needs it)
+    return eng, world, list(sym.cons), qs
 
 def build(mir, cube):
     if cube.get('edges'): return build_edges(mir, cube)
